@@ -78,17 +78,18 @@ def rand_unitary(n, batch, dtype, g):
 
 def make_matrix(cls, n, batch, dtype, g):
     """returns (matrix, sigma_min, sigma_max)"""
-    s = torch.linspace(0.6, 3.0, n, dtype=torch.float64)
+    s = torch.linspace(0.6, 3.0, n, dtype=torch.float64) if n < 15 else torch.linspace(0.6, 30.0, n, dtype=torch.float64)
+    smax_ = float(s[-1])
     if cls == "spd":
         Q = rand_unitary(n, batch, dtype, g)
-        return (Q * s.to(dtype)) @ Q.transpose(-2, -1).conj(), 0.6, 3.0
+        return (Q * s.to(dtype)) @ Q.transpose(-2, -1).conj(), 0.6, smax_
     if cls == "indef":
         sg = s * torch.tensor([(-1.0) ** i for i in range(n)], dtype=torch.float64)
         Q = rand_unitary(n, batch, dtype, g)
-        return (Q * sg.to(dtype)) @ Q.transpose(-2, -1).conj(), 0.6, 3.0
+        return (Q * sg.to(dtype)) @ Q.transpose(-2, -1).conj(), 0.6, smax_
     U = rand_unitary(n, batch, dtype, g)
     V = rand_unitary(n, batch, dtype, g)
-    return (U * s.to(dtype)) @ V.transpose(-2, -1).conj(), 0.6, 3.0
+    return (U * s.to(dtype)) @ V.transpose(-2, -1).conj(), 0.6, smax_
 
 
 class Sink(object):
@@ -144,6 +145,12 @@ def run_case(tid, cfg, seed):
     if dtype.is_complex:
         B = B + 1j * torch.randn(*cfg["bB"], n, nc, generator=g, dtype=torch.float64)
     B = B.to(wd)
+    if cfg.get("eigcol"):
+        # first column: a large multiple of an eigenvector (Krylov methods finish it in one step), second: a generic unit vector
+        evl, evc = torch.linalg.eigh(Amat if herm else (Amat @ Amat.transpose(-2, -1).conj()))
+        B = torch.stack([evc[..., -1] * 1e6, B[..., 1] / B[..., 1].norm()], dim=-1).to(wd)
+    if cfg.get("colscale"):
+        B = B * torch.tensor(cfg["colscale"][:nc], dtype=torch.float64).to(wd)     # columns of very different magnitude
     if cfg["zeroB"]:
         B = B * 0
     E = Mmat = None
@@ -242,6 +249,18 @@ def case_list(thorough, rng):
                                     or (method == "bicgstab" and cls == "spd"))
                                 out.append(dict(method=method, mode=mode, cls=cls, dtype=dt, op=op, bA=list(bA), bB=list(bB), bE=list(bE), bM=list(bM),
                                                 n=n, ncols=2 if len(out) % 3 else 3, zeroB=zeroB, must_silent=must, opts={}))
+    # columns of very different magnitude: every column has its own stopping threshold
+    for method in KRYLOV + ["broyden1", "exactsolve"]:
+        for cls in ("spd", "nonherm"):
+            for mode in ("none", "E"):
+                for n_ in (5, 8):
+                    out.append(dict(method=method, mode=mode, cls=cls, dtype="float64", op="dense", bA=[], bB=[], bE=[], bM=[], n=n_, ncols=3,
+                                    zeroB=False, must_silent=False, opts={}, colscale=[1e6, 1.0, 1e-3]))
+    for method in KRYLOV:
+        for cls in ("spd", "indef"):
+            for n_ in (20, 40):
+                out.append(dict(method=method, mode="none", cls=cls, dtype="float64", op="dense", bA=[], bB=[], bE=[], bM=[], n=n_, ncols=2,
+                                zeroB=False, must_silent=False, opts={}, eigcol=True))
     # tight iteration budget: the solver must warn or meet the tolerance
     for method in KRYLOV:
         for cls in ("spd", "nonherm"):
